@@ -17,7 +17,7 @@ def instances(build, tier, seed):
     for opk, opn in ((1, 'div'), (2, 'mod')):
         for (l, r) in ((6, 6), (7, 6), (8, 8), (9, 6), (3, 10)):
             L.append(Inst('fold.%s-undefined.%s.%s' % (opn, exprlib.TYPES[l], exprlib.TYPES[r]), 'h_expr.c',
-                          {'LT': l, 'RT': r, 'OPK': opk, 'WANT': exprlib.result_type(opk, l, r), 'FOLD_DIVZERO': None},
+                          {'LT': l, 'RT': r, 'OPK': opk, 'WANT': exprlib.result_type(opk, l, r), 'LCONV': exprlib.common(l, r), 'RCONV': exprlib.common(l, r), 'FOLD_DIVZERO': None},
                           units=['expr', 'eval', 'type', 'util'], overrides=['fatal', 'xmalloc', 'error'], native_units=exprlib.NATIVE, unwind=4,
                           family='fold.undefined', witness=False, timeout=120, extra=['--div-by-zero-check', '--signed-overflow-check'], bound={'operator': opn, 'inputs': 'divisor 0 or MIN/-1'}))
     return L
